@@ -663,3 +663,14 @@ BENIGN["C08"] += [
     (SC, "    return numpy.where(numpy.equal(seperation, 0), 0., D_vk)[()]", "    return numpy.where(seperation > 0, D_vk, 0.)[()]"),
     (KL, "    return np.where(np.equal(r, 0), 0., D_vk)[()]", "    return np.where(r == 0, 0., D_vk)[()]"),
 ]
+
+# ---- rebin in integer arithmetic (A14, after the fix def40d2)
+SEEDED["C13"] += [
+    (KL, "    indices = [(np.arange(new) * old) // new\n               for old, new in zip(a.shape, newshape)]\n    return a[np.ix_(*indices)]",
+     "    slices = [slice(0, old, float(old) / new)\n              for old, new in zip(a.shape, newshape)]\n    return a[tuple(np.mgrid[slices].astype('i'))]", "A14"),
+    (KL, "    indices = [(np.arange(new) * old) // new", "    indices = [(np.arange(new) * new) // old", "A14"),
+    (KL, "    indices = [(np.arange(new) * old) // new", "    indices = [(np.arange(old) * old) // new", "A14"),
+]
+BENIGN["C13"] += [
+    (KL, "    indices = [(np.arange(new) * old) // new", "    indices = [np.arange(new) * old // new"),
+]
